@@ -129,7 +129,38 @@ fn gen_files(rng: &mut Rng, dir: &Path) -> Vec<GenFile> {
         std::fs::write(&path, &bytes).unwrap();
         files.push(GenFile { path, msgs: out });
     }
+    // 1/6: a twin of the first file: same ECU set, the SAME first message (equal first reception time, e.g. a capture
+    // split at one timestamp), the other messages 5 us later with their own texts. The order independence clause does not
+    // apply to such inputs (the caller skips the permutation), everything else does.
+    if !files.is_empty() && files[0].msgs.len() >= 2 && rng.chance(1, 6) {
+        let fi = files.len();
+        let mut out = Vec::new();
+        for (k, (m, t)) in files[0].msgs.iter().enumerate() {
+            let mut m = m.clone();
+            let mut text = t.clone();
+            if k > 0 {
+                m.reception_time_us += 5; // the us digit of generated messages is the file number 0..3
+                text = format!("f{}m{} twin", fi, k);
+                if m.extended_header.as_ref().map_or(false, |e| e.verb_mstp_mtin & 1 == 1 && (e.verb_mstp_mtin >> 1) & 7 == 0) {
+                    m.payload = verbose_string_payload(&text, false);
+                }
+            }
+            out.push((m, text));
+        }
+        let mut bytes = Vec::new();
+        for (m, _) in &out {
+            m.to_write(&mut bytes).unwrap();
+        }
+        let path = dir.join(format!("in{}_twin.dlt", fi));
+        std::fs::write(&path, &bytes).unwrap();
+        files.push(GenFile { path, msgs: out });
+    }
     files
+}
+
+/// two files start with the same message (equal first reception time)
+fn has_twin(files: &[GenFile]) -> bool {
+    files.last().map_or(false, |f| f.path.to_string_lossy().ends_with("_twin.dlt"))
 }
 
 fn ecu_index(e: &DltChar4) -> usize {
@@ -332,10 +363,11 @@ fn case(rep: &mut Report, rng: &mut Rng, bin: &str, case_no: u64) {
         }
     };
     // validate: multiset equal, per file order kept, indices consecutive from 0, sorted by reception time if every file is
-    let mut by_time: HashMap<u64, (usize, usize)> = HashMap::new();
+    // (the first message of a twin file is identical to the first message of file 0: either assignment is right)
+    let mut by_time: HashMap<u64, Vec<(usize, usize)>> = HashMap::new();
     for (fi, f) in files.iter().enumerate() {
         for (k, (m, _)) in f.msgs.iter().enumerate() {
-            by_time.insert(m.reception_time_us, (fi, k));
+            by_time.entry(m.reception_time_us).or_default().push((fi, k));
         }
     }
     if reference.len() != total {
@@ -349,7 +381,7 @@ fn case(rep: &mut Report, rng: &mut Rng, bin: &str, case_no: u64) {
             rep.violation("reference:index", format!("line {} has index {}", k, idx), rp(json!(null)));
             return;
         }
-        match by_time.get(t) {
+        match by_time.get(t).and_then(|c| c.iter().find(|(fi, pos)| next_pos[*fi] == *pos).or(c.first())) {
             Some((fi, pos)) => {
                 if next_pos[*fi] != *pos {
                     rep.violation("reference:per-file-order", format!("output line {}: message {} of file {} but its predecessor in the file was not emitted yet (expected position {})", k, pos, fi, next_pos[*fi]), rp(json!(null)));
@@ -437,7 +469,7 @@ fn case(rep: &mut Report, rng: &mut Rng, bin: &str, case_no: u64) {
         }
         // permutation of the file arguments
         let mut fa = file_args.clone();
-        let permuted = rng.chance(1, 2) && fa.len() > 1;
+        let permuted = rng.chance(1, 2) && fa.len() > 1 && !has_twin(&files);
         if permuted {
             rng.shuffle(&mut fa);
         }
